@@ -1,3 +1,4 @@
+import Nstd.Generated.AvlConst
 /-
   Executable model of `nstd::Map<K,V>` / `nstd::MultiMap<K,V>` (include/nstd/Map.hpp, MultiMap.hpp).
 
@@ -28,7 +29,7 @@
     findM*         `MultiMap::find` as repaired by fixes/avl/01 (first of the equal keys)
 
   Keys and values are `Int`.  Pointers are ids (`Nat`); `order` is the prev/next list threaded
-  through the items (what iterators walk), `free` the LIFO free list fed by 4-item blocks.
+  through the items (what iterators walk), `free` the LIFO free list fed by blocks of `ipbOf` items (4 in the pinned sources).
   Core Lean only.
 -/
 namespace Nstd.Avl
@@ -286,6 +287,16 @@ def threadIn (order : List Nat) (x : Nat) : Option (Nat × Bool) → List Nat
   | some (p, true) => insertAfter p x order
   | some (p, false) => insertBefore p x order
 
+/-- items per heap block of the node pool (translated from the current headers) -/
+def ipbOf (multi : Bool) : Nat :=
+  if multi then Nstd.Generated.Avl.itemsPerBlockMulti else Nstd.Generated.Avl.itemsPerBlockMap
+
+/-- the items `b .. b+n-1` of a fresh block in the order the fill loop leaves them on the free
+    list: the last slot on top -/
+def blockItems (b : Nat) : Nat → List Nat
+  | 0 => []
+  | n + 1 => (b + n) :: blockItems b n
+
 def idxOf (x : Nat) : List Nat → Nat
   | [] => 0
   | a :: as => if a = x then 0 else idxOf x as + 1
@@ -301,13 +312,14 @@ deriving Repr
 
 def St.init (multi : Bool) : St := { multi := multi }
 
-/-- take an item from the free list, allocating a block of 4 when it is empty -/
+/-- take an item from the free list, allocating a block when it is empty -/
 def St.alloc (s : St) : Nat × St :=
   match s.free with
   | i :: rest => (i, { s with free := rest })
   | [] =>
-    let b := 4 * s.blocks
-    (b + 3, { s with free := [b + 2, b + 1, b], blocks := s.blocks + 1 })
+    match blockItems (ipbOf s.multi * s.blocks) (ipbOf s.multi) with
+    | i :: rest => (i, { s with free := rest, blocks := s.blocks + 1 })
+    | [] => (0, { s with blocks := s.blocks + 1 })   -- a block of zero items: the translator refuses that
 
 inductive Ret where
   | none : Ret
